@@ -110,6 +110,9 @@ type c15Obs struct {
 func c15Run(cs c15Case) (obs c15Obs, cw *countingWriter, panicked interface{}) {
 	cw = &countingWriter{hdr: http.Header{}, failFrom: cs.FailFrom, failAccept: cs.FailAccept}
 	c := restful.NewContainer()
+	if cs.First == "SelectorError" {
+		c.Router(c06Selector{}) // an application-provided RouteSelector that fails with a plain error
+	}
 	c.EnableContentEncoding(cs.Coding != "")
 	c.Filter(func(req *restful.Request, resp *restful.Response, chain *restful.FilterChain) {
 		chain.ProcessFilter(req, resp)
@@ -195,6 +198,9 @@ func c15Run(cs c15Case) (obs c15Obs, cw *countingWriter, panicked interface{}) {
 	}))
 	c.Add(ws)
 	q := h.Req{Method: "GET", Segs: []string{"b", "r"}, Hdr: [][2]string{{"Accept", cs.Accept}}}
+	if cs.First == "SelectorError" {
+		q.Hdr = append(q.Hdr, [2]string{"X-SelErr", "1"})
+	}
 	if cs.First == "HandleWithFilter" {
 		// a plain http.Handler behind the container filters: status and raw writes go through
 		// whatever writer the container hands it
@@ -218,6 +224,22 @@ func c15Run(cs c15Case) (obs c15Obs, cw *countingWriter, panicked interface{}) {
 	}
 	if cs.Coding != "" {
 		q.Hdr = append(q.Hdr, [2]string{"Accept-Encoding", cs.Coding})
+	}
+	if cs.MW != "" {
+		// the adapted middleware has served a request before: the judged request is its second one
+		warm := &countingWriter{hdr: http.Header{}}
+		real := cw
+		cw = warm
+		func() {
+			defer func() { recover() }()
+			if cs.First == "HandleWithFilter" {
+				c.ServeHTTP(warm, q.HTTP())
+			} else {
+				c.Dispatch(warm, q.HTTP())
+			}
+		}()
+		cw = real
+		obs = c15Obs{}
 	}
 	func() {
 		defer func() { panicked = recover() }()
@@ -400,7 +422,7 @@ func replayC15(detail json.RawMessage) error {
 
 func c15Cases(tier string) []c15Case {
 	var firsts []c15Case
-	firsts = append(firsts, c15Case{First: ""})
+	firsts = append(firsts, c15Case{First: ""}, c15Case{First: "SelectorError"})
 	statuses := []int{200, 201, 404}
 	values := []string{"nil", "small", "big"}
 	for _, s := range statuses {
@@ -434,7 +456,7 @@ func c15Cases(tier string) []c15Case {
 					}
 					coded := base
 					coded.Coding = "gzip"
-					if f.First != "HandleWithFilter" && f.First != "NestedDispatch" {
+					if f.First != "HandleWithFilter" && f.First != "NestedDispatch" && f.First != "SelectorError" {
 						out = append(out, coded)
 						if tier == "thorough" {
 							coded.Coding = "deflate"
